@@ -611,6 +611,25 @@ pub async fn drive(case: &Case) -> Outcome {
                     net2.mark_server_validated();
                 }
             }
+            // the rebound address is validated when the server processes a PATH_RESPONSE after the rebinding
+            let (rebound, open) = {
+                let g = net2.inner.lock().unwrap();
+                (g.nat_real.is_some(), g.alt_validated_at.is_none())
+            };
+            if server && rebound && open {
+                let v = serde_json::to_value(ev).unwrap_or_default();
+                // what the server sends on the rebound path before validation, split into probes and everything else
+                if v["name"].as_str().is_some_and(|n| n.ends_with("packet_sent")) && v["path"].as_str().is_some_and(|p| p.contains("127.0.0.7:7777")) {
+                    let probe_only = v["data"]["frames"].as_array().is_some_and(|fs| fs.iter().all(|f| matches!(f["frame_type"].as_str(), Some("path_challenge" | "path_response" | "padding" | "ping"))));
+                    let long = v["data"]["header"]["packet_type"].as_str().is_some_and(|t| t != "1RTT");
+                    if !probe_only && !long {
+                        net2.note_alt_data(v["data"]["raw"]["length"].as_u64().unwrap_or(0));
+                    }
+                }
+                if v["name"].as_str().is_some_and(|n| n.ends_with("packet_received")) && v["data"]["frames"].as_array().is_some_and(|fs| fs.iter().any(|f| f["frame_type"] == "path_response")) {
+                    net2.mark_alt_validated();
+                }
+            }
         });
         match case.qlog {
             QlogMode::Noop => Arc::new(NoopLogger),
@@ -936,6 +955,17 @@ pub async fn drive(case: &Case) -> Outcome {
         crate::oracles::check_close_qlog(&mut out, &captured);
     }
     let g = net.inner.lock().unwrap();
+    // C15 "sending resumes as soon as ... the address is validated": after a NAT rebinding whose new address the server
+    // has validated (it processed a PATH_RESPONSE), the transfer must complete — a path that stays throttled to three
+    // times the trickle of acknowledgements it receives never does. Not judged when the run ends in congestion collapse
+    // (known finding of C02), on the slowest link, or when faults were still being injected after the validation.
+    if let (Some(_), Some(v_at)) = (g.nat_real, g.alt_validated_at) {
+        // (on the slowest link drawn, 20 kB/s, the known congestion-collapse pathologies of C02/C13 decide the outcome)
+        let slow_link = case.net.bandwidth > 0 && case.net.bandwidth < 100;
+        if (!completed || !pending.is_empty()) && !collapse && !slow_link && failed.is_empty() && g.last_fault_at_ms <= v_at + 5_000 {
+            out.violate("resume", "after-path-validation", format!("the server validated the client's new address at {v_at} ms, yet at {completed_at} ms still pending: {pending:?}"), completed_at);
+        }
+    }
     out.stats.add("datagrams_c2s", g.ordinals[0] as u64);
     out.stats.add("datagrams_s2c", g.ordinals[1] as u64);
     if completed && pending.is_empty() && failed.is_empty() {
